@@ -431,11 +431,13 @@ func ruleC11_7(c *Ctx) {
 	}
 	c.examined(len(rr.Blocks))
 	// each row: why it is an authentication failure
+	// (the key is the shortest prefix that no other Redis error shares: a test for less than that also matches
+	// ordinary per-command errors, e.g. "-ERR invalid" matches "-ERR invalid expire time in 'set' command")
 	known := map[string]string{
-		"-NOAUTH Authentication required":                "no AUTH was sent and the node requires one",
-		"-ERR invalid password":                          "AUTH with a wrong password (redis < 6)",
-		"-ERR Client sent AUTH, but no password is set":  "a password is configured in the proxy but not on the node",
-		"-ERR AUTH <password> called without any password configured for the default user.": "same, redis >= 6 wording",
+		"-NOAUTH":               "no AUTH was sent and the node requires one",
+		"-ERR invalid password": "AUTH with a wrong password (redis < 6)",
+		"-ERR Client sent AUTH": "a password is configured in the proxy but not on the node",
+		"-ERR AUTH <password> called without any password": "same, redis >= 6 wording",
 		"-WRONGPASS": "AUTH with a wrong password (redis >= 6)",
 	}
 	authTypes := map[int64]string{}
@@ -503,7 +505,7 @@ func ruleC11_7(c *Ctx) {
 		n++
 		why, ok := "", false
 		for kp, reason := range known {
-			if strings.HasPrefix(pre, kp) || strings.HasPrefix(kp, pre) && len(pre) >= 8 {
+			if strings.HasPrefix(pre, kp) {
 				why, ok = reason, true
 			}
 		}
